@@ -17,6 +17,8 @@ SingleMatchT = ObjT("SingleMatch")
 schema("Match", front_match=OptT(SingleMatchT), back_match=OptT(SingleMatchT), **_single)
 MatchT = ObjT("Match")
 
+LinkedT = ObjT("LinkedMatch", front_match=OptT(SingleMatchT), back_match=OptT(SingleMatchT), adapter=AdapterT, __cls__=Int)
+
 schema("ModificationInfo", matches=SeqT(MatchT), original_read=Record, cut_prefix=OptT(Str), cut_suffix=OptT(Str),
        is_rc=OptT(Bool))
 InfoT = ObjT("ModificationInfo")
